@@ -68,6 +68,13 @@ def _prime(sess):
         codec().encode(FIXMessage("0", {112: "prime"}), other)
     except Exception:
         pass
+    # ... and then FAILS on a message it must refuse part-way (fields already collected, value not sendable;
+    # PossDupFlag=Y without a number): nothing of a refused message may leak into the next frame
+    for bad in (FIXMessage("D", {11: "leak-me", 37: "o1", 58: "a\x01b"}), FIXMessage("D", {17: "leak-too", 43: "Y"})):
+        try:
+            codec().encode(bad, other)
+        except Exception:
+            pass
 
 
 # --------------------------------------------------------------------------
